@@ -131,6 +131,7 @@ func cmdCheck(args []string) int {
 	}
 	loadS := time.Since(tLoad).Seconds()
 	P.mapOrders = true
+	startMemWatchdog()
 	to := *timeout
 	if to == 0 {
 		to = 20000
@@ -255,7 +256,7 @@ func cmdCheck(args []string) int {
 	for _, rr := range x.results {
 		for i, w := range rr.Probes {
 			id := fmt.Sprintf("%s#p%d", rr.Root.Key(), i)
-			tapes = append(tapes, &Tape{ID: id, Harness: rr.Root.Harness, Params: rr.Root.Params, Nondet: w.Nondet, Chooses: w.Chooses, Expect: "probe"})
+			tapes = append(tapes, &Tape{ID: id, Harness: rr.Root.Harness, Params: rr.Root.Params, Nondet: w.Nondet, Chooses: w.Chooses, Expect: "probe", bound: w.Bound})
 			tapeRoot[id] = rr
 		}
 	}
@@ -325,6 +326,11 @@ func cmdCheck(args []string) int {
 							what = r.Fails[0]
 						}
 						nativeCex = append(nativeCex, nativeCexT{tp, what})
+					} else if tp.bound && r.Deadlock && !rr0(tapeRoot[tp.ID]).Root.LibPrio && !hasSchedRoot(tapeRoot[tp.ID]) {
+						// the engine ran into its step bound on this path AND the real code, run natively on the
+						// same input, does not return within the replay's time limit: it does not terminate
+						// (or not in any useful time) where the harness expects an answer
+						nativeCex = append(nativeCex, nativeCexT{tp, "the real code does not return on this input (engine: step / allocation bound exceeded; native: no result within the replay's time limit)"})
 					}
 					continue
 				}
@@ -515,6 +521,7 @@ func cmdCheck(args []string) int {
 				"known_findings_matched":           len(usedKnown),
 				"ssa_instructions_executed":        steps,
 				"race_monitor_accesses_checked":    raceChecks,
+				"last_resort_solver_queries":       lastResortQueries.Load(),
 				"second_solver_rechecks":           map[string]interface{}{"solver": "z3-new 5.1.0, from scratch", "every_nth_discharged_obligation": x.crossRate, "rechecked": crossChecked, "disagreements": crossDisagree},
 				"lib_priority_reexplored_roots":    len(lpResults),
 				"load_s":                           loadS,
@@ -640,6 +647,28 @@ func sortStrings(s []string) []string { sort.Strings(s); return s }
 func hasSched(ds []Dec) bool {
 	for _, d := range ds {
 		if d.K == 's' {
+			return true
+		}
+	}
+	return false
+}
+
+func rr0(rr *RootResult) *RootResult { return rr }
+
+// hasSchedRoot: did any path of the root involve scheduling decisions (concurrent harness)?
+func hasSchedRoot(rr *RootResult) bool {
+	for _, f := range rr.Failures {
+		if hasSched(f.Decs) {
+			return true
+		}
+	}
+	for _, w := range rr.Witnesses {
+		if hasSched(w.Decs) {
+			return true
+		}
+	}
+	for _, w := range rr.Probes {
+		if hasSched(w.Decs) {
 			return true
 		}
 	}
